@@ -816,5 +816,22 @@ Local Open Scope nat_scope.
 """
 
 
+def coq_std_case(case, srun):
+    """Coq literal of type SpecTool.std_case for one run of the CPython counterpart."""
+    out = srun["outcome"]
+    if out[0] == "ok":
+        out = ("ok", canon_result(case, out[1]))
+    return "(mkStd %s [%s] %s [%s])" % (
+        case.tool.coq,
+        "; ".join("[%s]" % "; ".join(coq_val(x) for x in s) for s in case.srcs),
+        coq_outcome(out),
+        "; ".join(coq_event(e) for e in srun["log"]))
+
+
+def coq_std_file(cases_text):
+    return (COQ_HEADER + "Require Import V.Std.SpecTool.\nDefinition cases : list std_case := [\n" + ";\n".join(cases_text)
+            + "\n].\nEval vm_compute in (std_failing cases).\n")
+
+
 def coq_file(cases_text):
     return COQ_HEADER + "Definition cases : list case := [\n" + ";\n".join(cases_text) + "\n].\nEval vm_compute in (failing cases).\n"
